@@ -34,8 +34,8 @@ LOG_START, END, LSO = 2, 7, 5
 COMMITTED = {"absent": None, "inside": 3, "marker": 4, "unstable": 6, "end": 7, "below": 1, "beyond": 9}
 LEGACY_COMMITTED = ("absent", "inside", "end", "below", "beyond")
 
-ERRS = {"OffsetFetch": [14, 16], "ListOffsets": [6, 3, 5], "FindCoordinator": [15]}
-#  COORDINATOR_LOAD_IN_PROGRESS, NOT_COORDINATOR | NOT_LEADER, UNKNOWN_TOPIC_OR_PARTITION, LEADER_NOT_AVAILABLE | COORDINATOR_NOT_AVAILABLE
+ERRS = {"OffsetFetch": [14, 16, 15], "ListOffsets": [6, 3, 5], "FindCoordinator": [15]}
+#  COORDINATOR_LOAD_IN_PROGRESS, NOT_COORDINATOR, COORDINATOR_NOT_AVAILABLE | NOT_LEADER, UNKNOWN_TOPIC_OR_PARTITION, LEADER_NOT_AVAILABLE | COORDINATOR_NOT_AVAILABLE
 FAULTS = {"faults": ["drop-before", "drop-after", "lose", "err"], "fault_apis": ["OffsetFetch", "ListOffsets", "FindCoordinator"],
           "errs": ERRS}
 
@@ -82,6 +82,8 @@ def cell_params(cap, isolation, policy, group, cname):
              expect_start={"0": expectation(committed, policy, isolation, cap, group)})
     if group and committed is not None:
         p["committed"] = {"0": committed}
+        if not LOG_START <= committed <= END:
+            p["expect_oor"] = {"0": committed}
     return p
 
 
@@ -134,7 +136,7 @@ def run(ctx):
         "simulated group coordinator serves OffsetFetch/FindCoordinator per DESIGN Appendix A; ListOffsets honours the isolation level from v2",
         "read_committed x ListOffsets v0/v1 excluded: aiokafka refuses to build the request (IncompatibleBrokerVersion) and no broker "
         "without ListOffsets v2 stores transactions",
-        "faults limited to retriable codes (OffsetFetch 14/16, ListOffsets 6/3/5, FindCoordinator 15), drop-before/after, lost reply",
+        "faults limited to retriable codes (OffsetFetch 14/16/15, ListOffsets 6/3/5, FindCoordinator 15), drop-before/after, lost reply",
         "bounded liveness: horizon 4 virtual seconds of polling (request timeout 1 s, retry backoff 50 ms)",
         "subscribe()-based group membership is explored by the C04-C06 checks, not here",
     ]
